@@ -40,6 +40,61 @@ class _AssertionSub(AssertionError):
     """user-defined subclass of AssertionError"""
 
 
+# KIND OF EXCEPTION OBJECT (payload dimension, implementation side only - the models abstract errors to ids): every
+# exception instance the case creates - errors handed to set_error / ErrorFuture, raised by providers, task bodies,
+# flush bodies, dependencies, cleanup code, on_computed subscribers - is an instance of a subclass (made here) of the
+# class the case names, with the special methods of the kind.  The outcome of a future must not depend on them:
+#   plain       - nothing overridden (the only kind there was)
+#   falsy-len   - defines __len__ returning 0 (an aggregate / collection-like error without sub-errors)
+#   falsy-bool  - defines __bool__ returning False
+#   bool-raises - __bool__ raises TypeError ("truth value is ambiguous", as array-like payloads do); generated only in
+#                 cases without raising subscribers: asynq reports a subscriber's exception with traceback.print_exc(),
+#                 and CPython's printer itself tests every exception of the __context__ chain for truth (traceback.py,
+#                 TracebackException.__init__: `if (e and e.__cause__ is not None ...`) - it cannot print such objects
+#   eq-all      - __eq__ answers True to everything (None included), __ne__ False
+#   eq-never    - __eq__ answers False to everything (itself included), __ne__ True
+EKINDS = ("plain", "falsy-len", "falsy-bool", "bool-raises", "eq-all", "eq-never")
+_EKIND = ["plain"]
+_KINDED = {}
+
+
+def _ambiguous(self):
+    raise TypeError("the truth value of this error object is ambiguous")
+
+
+def _kinded(base):
+    """`base` itself (plain) or a subclass of it with the special methods of the current case's kind."""
+    kind = _EKIND[0]
+    if kind == "plain":
+        return base
+    if (base, kind) not in _KINDED:
+        ns = {"__hash__": lambda self: id(self) >> 4}
+        if kind == "falsy-len":
+            ns["__len__"] = lambda self: 0
+        elif kind == "falsy-bool":
+            ns["__bool__"] = lambda self: False
+        elif kind == "bool-raises":
+            ns["__bool__"] = _ambiguous
+        elif kind == "eq-all":
+            ns["__eq__"] = lambda self, other: True
+            ns["__ne__"] = lambda self, other: False
+        elif kind == "eq-never":
+            ns["__eq__"] = lambda self, other: False
+            ns["__ne__"] = lambda self, other: True
+        else:
+            raise ValueError(kind)
+        _KINDED[(base, kind)] = type("%s_%s" % (base.__name__, kind.replace("-", "_")), (base,), ns)
+    return _KINDED[(base, kind)]
+
+
+def _verr(n):
+    return _kinded(VErr)(n)
+
+
+def _vbase(n):
+    return _kinded(VBase)(n)
+
+
 # subscribers' exceptions of the current case: (exception object, subscriber id, class name) - lets the
 # runner say "this operation raised the very exception a subscriber raised" (identity, not class)
 _RAISED = []
@@ -49,7 +104,14 @@ def _make_exc(f, n, cls):
     """An Exception instance of class `cls` (model: Futures.xcls).  Every class is an Exception subclass;
     XAssertion comes from a failing `assert`, the way user code produces it."""
     if cls == "XUser":
-        return VErr(n)
+        return _verr(n)
+    if _EKIND[0] != "plain":
+        if cls == "XAssertion":
+            return _kinded(AssertionError)("%d: sanity check failed" % n)
+        if cls == "XKey":
+            return _kinded(KeyError)(n)
+        if cls == "XAlreadyComputed":
+            return _kinded(FutureIsAlreadyComputed)(f)
     if cls == "XAssertion":
         try:
             assert f is n, "%d: sanity check failed" % n
@@ -67,7 +129,7 @@ def _make_exc(f, n, cls):
              "XAttribute": AttributeError, "XZeroDivision": ZeroDivisionError, "XOSError": OSError, "XRuntime": RuntimeError,
              "XNotImplemented": NotImplementedError, "XStopIteration": StopIteration, "XBatching": BatchingError,
              "XBatchCancelled": BatchCancelledError, "XCustom": _Custom}
-    return table[cls](n)
+    return _kinded(table[cls])(n)
 
 
 def _raise_cls(f, sid, cls):
@@ -115,7 +177,7 @@ def _end_computation(po, provlog, generator=False, batch=False):
         _PROVIDED.append((e, n))
         raise e
     provlog.append({"Base" if not (generator or batch) else "Err": [a[0]]})
-    raise VBase(a[0])
+    raise _vbase(a[0])
 
 
 def pyval(t):
@@ -167,6 +229,30 @@ def peek(fut):
     if e is not None:
         return {"Err": [exn_id(e)]}
     return {"Ok": [treeval(fut.value())]}
+
+
+def yield_read(fut):
+    """Outcome of a COMPUTED future as a parent task that yields it receives it: {"Ok": v} = the yield expression
+    evaluated to v, {"Err": id} = the exception was thrown into the parent at the yield.  None: not computed (not
+    yielded - that would compute it)."""
+    if not fut.is_computed():
+        return None
+
+    @asynq()
+    def parent():
+        try:
+            v = yield fut
+        except BaseException as e:
+            if isinstance(e, (_common.Hang, GeneratorExit)):
+                raise
+            return {"Err": [exn_id(e)]}
+        return {"Ok": [treeval(v)]}
+    try:
+        return parent()
+    except BaseException as e:
+        if isinstance(e, _common.Hang):
+            raise
+        return {"ParentFailed": [exn_id(e)]}
 
 
 class _Batch(BatchBase):
@@ -266,7 +352,7 @@ class _Subscribers(object):
             if k2 == "Ok":
                 target.set_value(pyval(v[0]))
             else:
-                target.set_error(VErr(v[0]))
+                target.set_error(_verr(v[0]))
             if self.sets is not None:
                 self.sets.append({"fut": self.tag, "by": sid, "target": t, "o": {k2: [v[0]]}})
             return
@@ -287,6 +373,7 @@ def run_susp(c):
     reg = _Subscribers(log)
     points = []       # observation points: before / after every operation, top-level or inner
     provlog = []      # how each run of the body ended by itself (returned / raised), observed
+    resumed = []      # what each yield of the body delivered (value sent in / error thrown in) + the dependency's own report
     holder = {}
 
     def point(when, lvl, i, name, extra=None):
@@ -313,7 +400,7 @@ def run_susp(c):
                     task.set_value(pyval(a[0]))
                     r = "RUnit"
                 elif name == "ISetError":
-                    task.set_error(VErr(a[0]))
+                    task.set_error(_verr(a[0]))
                     r = "RUnit"
                 elif name == "ISubscribe":
                     subscribe(task, a[0], a[1])
@@ -345,7 +432,7 @@ def run_susp(c):
         (k, a), = dep.items()
         if k == "Ok":
             return pyval(a[0])
-        raise VErr(a[0])
+        raise _verr(a[0])
 
     deps = []
     for pi, ph in enumerate(phases):
@@ -375,8 +462,9 @@ def run_susp(c):
         for pi, ph in enumerate(phases):
             clean = ph["mkphase"][1]
             try:
-                yield deps[pi]
+                got = yield deps[pi]
             except VErr as e:             # the failed dependency, thrown in by the scheduler
+                resumed.append({"phase": pi, "via": ph["mkphase"][0], "got": {"Err": [e.vid]}, "dep": peek(deps[pi])})
                 provlog.append({"Err": [e.vid]})
                 raise
             except GeneratorExit:
@@ -385,9 +473,10 @@ def run_susp(c):
                 elif clean != "CleanOk":
                     (k, a), = clean.items()
                     if k == "CleanRaise":
-                        raise VErr(a[0])
-                    raise VBase(a[0])
+                        raise _verr(a[0])
+                    raise _vbase(a[0])
                 raise
+            resumed.append({"phase": pi, "via": ph["mkphase"][0], "got": {"Ok": [treeval(got)]}, "dep": peek(deps[pi])})
         return _end_computation(fin, provlog, generator=True)
 
     task = body.asynq()
@@ -411,7 +500,7 @@ def run_susp(c):
                 task.set_value(pyval(a[0]))
                 r = "RUnit"
             elif name == "OSetError":
-                task.set_error(VErr(a[0]))
+                task.set_error(_verr(a[0]))
                 r = "RUnit"
             elif name == "OReset":
                 task.reset_unsafe()
@@ -427,8 +516,9 @@ def run_susp(c):
             r = {"RRaise": [exn_id(e)]}
         res.append(r)
         point("post", "top", i, name, {"r": r})
-    return {"out": {"": [res, inner_res, log, runs[0], reg.final(task)]}, "points": points, "prov": provlog,
-            "events": reg.events, "raises": reg.raises}
+    out = {"": [res, inner_res, log, runs[0], reg.final(task)]}
+    return {"out": out, "points": points, "prov": provlog, "events": reg.events, "raises": reg.raises,
+            "resumed": resumed, "final": peek(task), "yield": yield_read(task), "ekind": _EKIND[0]}
 
 
 def run_batch(c):
@@ -452,7 +542,7 @@ def run_batch(c):
                 if k == "Ok":
                     its[i].set_value(pyval(a[0]))
                 else:
-                    its[i].set_error(VErr(a[0]))
+                    its[i].set_error(_verr(a[0]))
 
     def work(batch):
         runs[0] += 1
@@ -465,7 +555,7 @@ def run_batch(c):
                     if k == "Ok":
                         it.set_value(pyval(a[0]))
                     else:
-                        it.set_error(VErr(a[0]))
+                        it.set_error(_verr(a[0]))
                     r = "RUnit"
                 except BaseException as e:
                     if isinstance(e, _common.Hang):
@@ -536,7 +626,7 @@ def run_batch(c):
                 f.set_value(pyval(a[0]))
                 r = "RUnit"
             elif name == "OSetError":
-                f.set_error(VErr(a[0]))
+                f.set_error(_verr(a[0]))
                 r = "RUnit"
             elif name == "OSubscribe":
                 regs[t].subscribe(f, a[0], a[1])
@@ -555,14 +645,18 @@ def run_batch(c):
         finals.append({"": ["None" if st is None else {"Some": [st]}, reg.final(it)]})
     events = [dict(e, fut=r.tag) for r in regs for e in r.events]
     raises = [dict(e, fut=r.tag) for r in regs for e in r.raises]
-    return {"out": {"": [res, inner_res, log, runs[0], regs[0].final(batch), finals]}, "points": points, "prov": provlog,
-            "events": events, "raises": raises, "sets": xsets}
+    out = {"": [res, inner_res, log, runs[0], regs[0].final(batch), finals]}
+    return {"out": out, "points": points, "prov": provlog, "events": events, "raises": raises, "sets": xsets,
+            "final": [peek(f) for f in futs], "yield": [yield_read(f) for f in futs], "ekind": _EKIND[0]}
 
 
 def run_case(c):
     del _RAISED[:]
     del _PROVIDED[:]
     del _PROMISE[:]
+    _EKIND[0] = c.get("ekind", "plain")
+    if _EKIND[0] not in EKINDS:
+        raise ValueError(_EKIND[0])
     if c["args"][0] == "KSusp":
         return run_susp(c)
     if c["args"][0] == "KBatch":
@@ -595,7 +689,7 @@ def run_case(c):
     elif kind == "KConst":
         fut = ConstFuture(pyval(o0["Ok"][0]))
     elif kind == "KError":
-        fut = ErrorFuture(VErr(o0["Err"][0]))
+        fut = ErrorFuture(_verr(o0["Err"][0]))
     else:
         raise ValueError(kind)
 
@@ -625,7 +719,7 @@ def run_case(c):
                 fut.set_value(pyval(a[0]))
                 r = "RUnit"
             elif name == "OSetError":
-                fut.set_error(VErr(a[0]))
+                fut.set_error(_verr(a[0]))
                 r = "RUnit"
             elif name == "OReset":
                 fut.reset_unsafe()
@@ -642,7 +736,9 @@ def run_case(c):
         res.append(r)
         obs.append({"op": name, "pre": pre, "post": peek(fut), "runs": runs[0] - pre_runs, "nlog": len(log),
                     "prov": provlog[pre_prov:], "subs": pre_subs})
-    return {"out": {"": [res, log, runs[0], reg.final(fut)]}, "obs": obs, "events": reg.events, "raises": reg.raises}
+    out = {"": [res, log, runs[0], reg.final(fut)]}
+    return {"out": out, "obs": obs, "events": reg.events, "raises": reg.raises,
+            "final": peek(fut), "yield": yield_read(fut), "ekind": _EKIND[0]}
 
 
 if __name__ == "__main__":
